@@ -11,29 +11,55 @@ Definition packs_of_type (t : blob_type) (ps : list ipack) : list ipack :=
   filter (fun p => bt_eqb (pack_type p) t) ps.
 Definition lists_id (id : N) (p : ipack) : bool := existsb (fun b => bid b =? id) (blobs p).
 
-(* presence *)
+(* presence, over an arbitrary list of source packs *)
+Definition listed_in (src : list ipack) (t : blob_type) (id : N) : bool :=
+  existsb (lists_id id) (packs_of_type t src).
 Definition listed (files : list ifile) (t : blob_type) (id : N) : bool :=
-  existsb (lists_id id) (packs_of_type t (unmarked files)).
+  listed_in (unmarked files) t id.
 (* all (pack, location) pairs under which the blob is listed *)
 Definition pack_listings (id : N) (p : ipack) : list (N * loc) :=
   map (fun b => (pid p, bloc b)) (filter (fun b => bid b =? id) (blobs p)).
+Definition listings_in (src : list ipack) (t : blob_type) (id : N) : list (N * loc) :=
+  flat_map (pack_listings id) (packs_of_type t src).
 Definition listings (files : list ifile) (t : blob_type) (id : N) : list (N * loc) :=
-  flat_map (pack_listings id) (packs_of_type t (unmarked files)).
+  listings_in (unmarked files) t id.
 
 (* sizes, in unbounded arithmetic *)
 Definition blobs_size (bs : list iblob) : N :=
   fold_right (fun b a => len (bloc b) + entry_len b + a) 0 bs.
 Definition size_spec (p : ipack) : N :=
   match psize p with Some s => s | None => COMP_OVERHEAD + LENGTH_LEN + blobs_size (blobs p) end.
-Definition sum_sizes (ps : list ipack) : N := fold_right (fun p a => size_spec p + a) 0 ps.
-Definition total_spec (files : list ifile) (t : blob_type) : N :=
-  sum_sizes (packs_of_type t (unmarked files)).
+Definition sum_sizes_by (sz : ipack -> N) (ps : list ipack) : N := fold_right (fun p a => sz p + a) 0 ps.
+Definition sum_sizes (ps : list ipack) : N := sum_sizes_by size_spec ps.
+Definition total_in (src : list ipack) (t : blob_type) : N := sum_sizes (packs_of_type t src).
+Definition total_spec (files : list ifile) (t : blob_type) : N := total_in (unmarked files) t.
+
+(* both sections of every file, in the order prune feeds them to its collector *)
+Definition all_packs (files : list ifile) : list ipack :=
+  flat_map (fun f => packs f ++ packs_to_delete f) files.
+Definition listed_anywhere (files : list ifile) (t : blob_type) (id : N) : bool :=
+  listed_in (all_packs files) t id.
+
+(* what a release build reports as the size of a pack: the header-derived size modulo 2^32 *)
+Definition size_release (p : ipack) : N :=
+  match psize p with Some s => s | None => size_spec p mod U32 end.
+Definition total_release (files : list ifile) (t : blob_type) : N :=
+  sum_sizes_by size_release (packs_of_type t (unmarked files)).
 
 (* inputs on which the checked build does not panic *)
 Definition size_fits (p : ipack) : bool :=
   match psize p with Some _ => true | None => size_spec p <? U32 end.
-Definition no_overflow (files : list ifile) : bool :=
-  forallb size_fits (unmarked files) && (N.of_nat (length (unmarked files)) <=? U32).
+Definition count_fits (src : list ipack) (t : blob_type) : bool :=
+  N.of_nat (length (packs_of_type t src)) <=? U32.
+Definition no_overflow_in (src : list ipack) : bool :=
+  forallb size_fits src && count_fits src Tree && count_fits src Data.
+Definition no_overflow (files : list ifile) : bool := no_overflow_in (unmarked files).
+(* the release build only panics on the pack counter *)
+Definition counts_fit (files : list ifile) : bool :=
+  count_fits (unmarked files) Tree && count_fits (unmarked files) Data.
+(* explicit sizes are u32 values (the type of IndexPack::size) *)
+Definition sizes_are_u32 (src : list ipack) : bool :=
+  forallb (fun p => match psize p with Some s => s <? U32 | None => true end) src.
 
 (* the reading by the blob's own listed type, and the packs on which both readings agree *)
 Definition listed_by_blob_type (files : list ifile) (t : blob_type) (id : N) : bool :=
